@@ -285,6 +285,19 @@ where
             let mut is_awaiting_discoveries = false;
             for (i, property) in properties.iter().enumerate() {
                 if discoveries.contains_key(property.name) {
+                    // Keep tracking the path even though a counterexample is already known, so
+                    // that a later terminal state cannot replace it with a path that satisfied
+                    // the condition.
+                    if let Property {
+                        expectation: Expectation::Eventually,
+                        condition: eventually,
+                        ..
+                    } = property
+                    {
+                        if eventually(model, &state) {
+                            ebits.remove(i);
+                        }
+                    }
                     continue;
                 }
                 match property {
